@@ -8,6 +8,7 @@ paint order, and the order under the implementation's named deviation (overflow 
 Binding: every tree is rendered with one background colour and one word per box on the recording backend; the order of the
 first fill of each colour and of each word must be the specification's sequence of bg(i) / text(i) events; and while a box is
 painted, the padding box of every ancestor with overflow: hidden (operator ClipAnc) must be among the clips in force.
+Family Wide: 16 sibling stacking contexts with z-index in {1, 2} (ties in tree order whatever the sort).
 """
 import os
 from vlib import MachineryError
